@@ -5,7 +5,7 @@ ENGINES = {
         model='coq/Model/EsClient.v (C14), coq/Model/Producer.v (C15)',
         rule='cases from harness/e7 Gen; focus C14: elasticsearch scenarios (selector 14: batch-size 1..5, max retries 1..3, index-workers 1..3, '
              'up to 24 ops = index requests / wrong-typed payloads / pauses of arrivals, per-document per-attempt scripts 2xx / retryable / mapping / '
-             'non-2xx-without-error, late responses in a few cases, whole-request errors only in the thorough tier, clean Shutdown (optionally with every bulk request HELD by the harness while the ops run - timer flushes of partial batches and '
+             'non-2xx-without-error, late responses in a few cases, a few single whole-request errors (max retries 1, retryable failures after it) in the quick tier and more in the thorough tier, clean Shutdown (optionally with every bulk request HELD by the harness while the ops run - timer flushes of partial batches and '
              'further arrivals happen while earlier requests are outstanding - and released before the end), Shutdown '
              'right after the last arrival, or the latter with all bulk requests held in flight until Shutdown has returned), run against the real Elasticsearch node (Setup, ProcessAsync, Shutdown) over a scripted bulk-service '
              'factory; focus C15: produce requests and error '
@@ -23,7 +23,7 @@ ENGINES = {
               '20': 'a document was re-sent', '21': 'retries exhausted -> ES_INDEX_ERROR', '22': 'mapping error answered at once',
               '23': 'non-2xx without error field at the last attempt', '24': 'partial batch sent by the idle timer', '25': 'full batch',
               '26': 'wrong-typed payload', '27': 'Shutdown with a pending batch (known finding F7)', '28': 'late 2xx response (after the client-side deadline)',
-              '29': 'whole-request error (thorough tier only: 5 s back-off)', '30': 'several bulk requests with more than one worker',
+              '29': 'whole-request error (5 s back-off each: a few single ones in the quick tier, the rest thorough only)', '30': 'several bulk requests with more than one worker',
               '31': 'success after a retry', '32': 'Shutdown while bulk requests are held in flight (known finding F7, in-flight half)'},
         trusted_base=['hand-written models Model/Producer.v (KafkaProducer.Process, ErrorProducer.Process, EventError.MarshalJSON, FBError) and '
                       'Model/EsClient.v tied to the code only by this correspondence run',
@@ -52,8 +52,11 @@ PROPS = {
                                'on every run by a correspondence check: the real node over a scripted bulk service, compared per event (answers) and per bulk '
                                'request (multiset of documents), plus spec_c14 evaluated on the implementation\'s observation.',
                     level_note='PARTIAL: (1) batch-max-wait-ms as wall-clock time is only measured coarsely by the harness; the theorems use a logical timer. '
-                               '(2) Whole-request errors: exactly-one-answer is proved for every script (C14_answered_once_any_script), the closed form of WHICH '
-                               'answer (C14_answered_once) assumes none; both kinds are compared with the code in the thorough tier. (3) Interleavings: the scheduled '
+                               '(2) Whole-request errors: the closed form of WHICH answer and HOW MANY sends is proved for every script, whole-request errors included '
+                               '(C14_answered_once_whole, batch-level closed form bfate: a whole-request failure answers nobody and uses up no retry; equal to the '
+                               'per-document fate without whole errors, C14_bfate_is_fate); the decision procedure applies it to the implementation\'s observation '
+                               'with the batch of a document taken as the longest observed bulk request holding it; a few single-back-off scenarios run in the quick '
+                               'tier, the rest in the thorough tier. (3) Interleavings: the scheduled '
                                'machine (arrivals, timer, Shutdown, acquire/respond/release) is proved to reach the multiset of answers and bulk requests of the '
                                'schedule-free semantics es_run on every complete schedule (C14_schedule_independent); that the Go runtime realises that machine is '
                                'modelled, not verified. (4) Shutdown: both halves of F7 are observed - requests in the pending batch are never answered; requests held in flight by the scripted '
